@@ -194,6 +194,9 @@ func runRound(rp roundPlan) {
 		}
 	}
 
+	// ---- byteslicepool recycling, one goroutine, nothing else running
+	sequentialPoolLoop(rp)
+
 	// ---- reference phase: every pipeline alone
 	refs := make([][]outcome, rp.G)
 	for g := 0; g < rp.G; g++ {
@@ -317,13 +320,14 @@ func TestCheck(t *testing.T) {
 	nRounds := mon.Pick(12, 624)
 	rec.Note("rule", "A case is a round (GOMAXPROCS from {2,4,16} by round index, 16-64 goroutines, 3 pipelines per goroutine, 2 loops); an evaluation is one concurrent run of one pipeline whose result was compared with the result of the same pipeline run alone beforehand. "+
 		"Pipelines (seeded): enc = fresh enc/v1 Encrypt->Decrypt per run with own message (lengths 0-1200 around the 512-byte header read step, k*64KiB-17..+17 for k=1..3, random <= 200 KiB), own key-encryption key, the 7 key-wrap algorithm names, 3 cipher options, key names of 1-300 bytes, chunked/whole/streamed readers, slow consumers, wrap/unwrap callbacks that Gosched or sleep, and 14 deliberately invalid document shapes (wrong key, failing unwrap, replaced MAC/manifest/scheme line, cuts inside the header, flipped/truncated segments) compared by decrypt error text, stream error text and the plaintext delivered; "+
-		"dec = the document produced by the reference run decrypted again concurrently (bit-identical input); sym = EncryptSymmetric/DecryptSymmetric or crypto.Encrypt/Decrypt over all 19 symmetric names with own key/nonce/AAD, with tampered tags; asym = the 5 RSA encryption names and 10 signature names with per-goroutine jwk keys; keys = SerializeKey/ParseKey/pem round trips; cron = ParseStandard and 6 custom parsers over valid and invalid specs, descriptors and TZ prefixes; log = logger.NewLogger under fresh distinct names (JSON and text output into an own buffer, lines compared without time) and under names shared by several goroutines (same instance), cron.PrintfLogger/VerbosePrintfLogger; pool = byteslicepool Get/Resize/Put cycles on 3 shared and per-goroutine pools under the ownership monitor. "+
+		"dec = the document produced by the reference run decrypted again concurrently (bit-identical input); sym = EncryptSymmetric/DecryptSymmetric or crypto.Encrypt/Decrypt over all 19 symmetric names with own key/nonce/AAD, with tampered tags; asym = the 5 RSA encryption names and 10 signature names with per-goroutine jwk keys; keys = SerializeKey/ParseKey/pem round trips; cron = ParseStandard and 6 custom parsers over valid and invalid specs, descriptors and TZ prefixes; log = logger.NewLogger under fresh distinct names (JSON and text output into an own buffer, lines compared without time) and under names shared by several goroutines (same instance), cron.PrintfLogger/VerbosePrintfLogger; pool = byteslicepool Get/Resize/Put cycles on 3 shared and per-goroutine pools under the ownership monitor; every slice is Put filled with its owner's non-zero stamp, and a Get that returns a backing array the monitor saw Put before (same element-0 address; the monitor pins every array it tracks) must show zeros in the first L bytes (L = length at the last Put) both through b[:cap(b)] and through Resize(b, L) - also run as a 48-step one-goroutine Get/fill/Put loop at the start of every round. "+
 		"distinct = distinct pipeline descriptions; non-trivial = at least one of its concurrent runs started while >= 16 goroutines of the round were active. Both builds (-race 'main', 'plain') run the same plan; counters prefixed main./plain. split them.")
 	rec.Note("require", []string{"main.pipelines", "plain.pipelines", "gomaxprocs.2.rounds", "gomaxprocs.4.rounds", "gomaxprocs.16.rounds",
 		"enc.same_as_alone.real_work", "dec.same_as_alone.real_work", "sym.same_as_alone.real_work", "asym.same_as_alone.real_work", "keys.same_as_alone.real_work",
 		"cron.same_as_alone.real_work", "log.same_as_alone.real_work", "pool.same_as_alone.real_work",
 		"enc.invalid_documents_same_error", "enc.unwrap_callback_pauses", "enc.streamed_decrypts", "enc.len.around_512_header_step", "enc.len.around_64KiB_boundary",
-		"pool.gets", "pool.gets_recycled", "pool.stamp_checks", "log.shared_name_lookups", "log.shared_names_with_several_goroutines",
+		"pool.gets", "pool.gets_recycled", "pool.stamp_checks", "pool.recycled_gets_checked_for_previous_owner_bytes", "pool.recycled_gets_checked.concurrent_phase",
+		"pool.sequential.recycled_gets_checked_for_previous_owner_bytes", "log.shared_name_lookups", "log.shared_names_with_several_goroutines",
 		"pipelines.with_15_or_more_other_goroutines_active"})
 	rec.Note("plan", map[string]any{"rounds": nRounds, "build": "main(-race)+plain"})
 	initProcessKeys()
